@@ -376,11 +376,15 @@ def _summarise_countdown(interp, st, frame):
             # b must be a + literal
             sa, sb = AbsStr(ua), AbsStr(ub)
             la, lb = sa.units(), sb.units()
-            if len(lb) < len(la) or any(x is not y and x != y for x, y in zip(la, lb[:len(la)])) \
-                    or not all(isinstance(x, str) for x in lb[len(la):]):
+            if len(lb) >= len(la) and not any(x is not y and x != y for x, y in zip(la, lb[:len(la)])) \
+                    and all(isinstance(x, str) for x in lb[len(la):]):
+                cand[v] = ("str", "".join(lb[len(la):]))
+            elif len(lb) > len(la) and not any(x is not y and x != y for x, y in zip(la, lb[len(lb) - len(la):])) \
+                    and all(isinstance(x, str) for x in lb[:len(lb) - len(la)]):
+                cand[v] = ("pre", "".join(lb[:len(lb) - len(la)]))
+            else:
                 restore()
                 return False
-            cand[v] = ("str", "".join(lb[len(la):]))
         else:
             restore()
             return False
@@ -429,8 +433,13 @@ def _summarise_countdown(interp, st, frame):
     # induction step from a generic state in which the condition holds
     def prep_generic():
         frame.locals[cv] = saved[cv]
-        gen = _genericise(interp, frame, [v for v in names if v != cv],
+        gen = _genericise(interp, frame, [v for v in names if v != cv and cand[v][0] != "pre"],
                           {v: cand[v][1] for v in names if cand[v][0] == "str"})
+        for v in names:
+            if cand[v][0] == "pre":
+                b = Blob("%s%d" % (v, next(_ids)))
+                frame.locals[v] = AbsStr([cand[v][1], b])
+                gen[v] = ("pre", b, cand[v][1])
         j = Sym("j%d" % next(_ids), 1, INF)
         frame.locals[cv] = Lin({j: -dc}, t_found)
         gen[cv] = ("lin_j", frame.locals[cv])
@@ -448,6 +457,13 @@ def _summarise_countdown(interp, st, frame):
                 return False
             continue
         frame.locals = after
+        if gen[v][0] == "pre":
+            nv = after.get(v)
+            atoms = nv.atoms if isinstance(nv, AbsStr) else []
+            if not (len(atoms) == 2 and atoms[1] is gen[v][1] and atoms[0] == gen[v][2] * 2):
+                restore()
+                return False
+            continue
         d = _delta(interp, gen, frame, v)
         if d is None or (d[0] in ("lin", "str") and d[1] != cand[v][1]):
             restore()
@@ -460,6 +476,8 @@ def _summarise_countdown(interp, st, frame):
         elif cand[v][0] == "lin":
             tot = Lin.of(saved[v]) + k.scale(cand[v][1])
             frame.locals[v] = tot.const if tot.is_const() else tot
+        elif cand[v][0] == "pre":
+            frame.locals[v] = simplify_str(AbsStr([Rep(cand[v][1], k), saved[v]]))
         elif cand[v][1]:
             frame.locals[v] = simplify_str(AbsStr([saved[v], Rep(cand[v][1], k)]))
     return True
